@@ -204,16 +204,16 @@ def source_backpressure(ctx, n, cases=None):
 
 def run(ctx):
     ctx.audit(extra_modules=lean_extra("C03"))
-    n = 150 if not ctx.thorough() else 2000
+    n = 150 if not ctx.thorough() else 1200
     graphcheck.run_family(ctx, n, ASPECTS, CHECKS, SIGS_A, modes=("async",), corpus=CORPUS_A, flavours=("future", "coro", "tornado"))
     A.sweep(ctx, n, KINDS, ["backpressure"], SIGS_B, corpus=CORPUS_B)
     for m in corr_modules():
-        m.run(ctx, "C03", 40 if not ctx.thorough() else 800)
+        m.run(ctx, "C03", 40 if not ctx.thorough() else 300)
     threaded_sample(ctx, 12 if not ctx.thorough() else 120)
     threaded_nested_sample(ctx, 18 if not ctx.thorough() else 54)
-    source_backpressure(ctx, 60 if not ctx.thorough() else 800)
+    source_backpressure(ctx, 60 if not ctx.thorough() else 500)
     ctx.coverage["rule"] = ("(A) graph-family generator in asynchronous mode with harness-completed consumers of three flavours; (B) asynchronous pipelines as in C02 "
-                            "with awaited and un-awaited producers; (C) 12/120 threaded blocking emits; (D) 60/800 source histories (from_periodic, from_textfile, "
+                            "with awaited and un-awaited producers; (C) 12/120 threaded blocking emits; (D) 60/500 source histories (from_periodic, from_textfile, "
                             "filenames, from_iterable under start/stop histories) with a consumer whose Future the harness resolves later. Non-trivial as in C01/C02.")
     ctx.assumptions += ["'accepted' = the emit awaitable completed; 'handed on' = the node called _emit; bounds are checked when the node directly follows the entry point",
                         "threaded operation is sampled in real time; OS thread scheduling is not modelled",
